@@ -6,7 +6,27 @@ by event scripts; every observation line is compared with the Lean model (corres
 observables the property names, with the Lean Spec (failing-input search); divergences are classified, shrunk
 (ddmin over the op list) and written as replays.
 
-Self-test (mutations of a scratch copy, VERIF_REPO; see the end of this file for the recorded outcomes).
+Self-test (single-edit mutations of a scratch copy of /repo/src, `VERIF_REPO=<copy> ./check C04|C11`, quick tier;
+every mutation exit 1 with a minimised replay, every harmless rewrite exit 0):
+
+  M1 C04  Published branch `_publish_reqs.pop(id)` -> `.get(id)`            key m.published:raise:ProtocolError-expected-got-no-raise
+          replay: open m.welcome,N pub,6,a1,k1=2.3=4,oack=t,ok m.published,1,102 m.published,1,103
+  M2 C04  Subscribed branch looks the id up in (and pops from) `_register_reqs`  keys m.subscribed:future-not-completed,
+          m.subscribed:raise:ProtocolError-expected-got-raise:AttributeError
+          replay: open m.welcome,N sub,1,4,om=2/gr=t,ok m.subscribed,1,52
+  M3 C04  ERROR dispatch ignores request_type for calls                      key m.error:unexpected-completion
+          replay: open m.welcome,N call,5,a1,k1=2,ot=5/x=3,ok m.error,64,1,7,a5.6,k
+  M4 C04  IdGenerator starts at -1 (first id 0)                             key request:id-not-sequential (+ translator refuses)
+          replay: open reg,1,4,n,ok
+  M7 C04  `raise ProtocolError` for an unknown PUBLISHED id replaced by `pass`  key m.published:raise:ProtocolError-expected-got-no-raise
+          replay: m.welcome,N m.published,1,101
+  M5 C11  `_unsubscribe`: `if scount == 0` -> `if True`                      keys unsub:request-message-unexpected, event:other
+          replay: open m.welcome,N sub,1,9,oda=3,ok sub,2,9,oda=3,ok m.subscribed,2,77 sub,3,9,oda=3,ok m.subscribed,3,77 unsub,2,ok
+  M6 C11  Event branch iterates `reversed(self._subscriptions[id])`          keys event:handler-order, event:handler-called-unexpectedly
+          replay: open m.welcome,N sub,1,8,n,ok sub,2,8,n,ok m.subscribed,1,77 m.subscribed,2,77 m.event,77,101,a5,k1=7;r!r
+  H1 C04  call(): record built in a local and stored with dict.update()      silent (exit 0)
+  H2 C11  `_unsubscribe`: scount = sum(1 for _ in list); `if not scount`     silent (exit 0)
+The minimised witnesses are kept in corpus/C04, corpus/C11 and replayed first on every run.
 """
 import itertools
 
@@ -226,14 +246,14 @@ def gen(ctx):
                     for hows in itertools.product(["success", "error", "wrong-type"], repeat=k):
                         out.append(("exh%d" % k, history(rng, kinds, order, list(hows), nsubs=1, nregs=1)))
     # k = 4: all 24 orders for sampled kind tuples
-    n4 = 12 if quick else 150
+    n4 = 12 if quick else 400
     for _ in range(n4):
         kinds = [rng.choice(kinds6) for _ in range(4)]
         for order in itertools.permutations(range(4)):
             out.append(("perm4", history(rng, kinds, order, [rng.choice(REPLY_KINDS) for _ in range(4)],
                                          traffic_p=0.2)))
     # (b) random: k in 1..6, random order, every reply kind, traffic, send failures, pump policies
-    nrand = 1500 if quick else 60000
+    nrand = 1500 if quick else 150000
     for _ in range(nrand):
         k = rng.randint(1, 6)
         kinds = [rng.choice(kinds6) for _ in range(k)]
